@@ -1,7 +1,13 @@
 package main
 
 // Library calls the instrumenter brackets with Block/Woke (qualified by receiver type).
-var blockingCalls = []string{}
+var blockingCalls = []string{
+	// github.com/coder/websocket is instrumented itself (UPS world); the leaf primitives that block
+	// on the simulated socket (a net.Pipe behind bufio) are bracketed inside the library only
+	"github.com/coder/websocket=>bufio.Reader.ReadByte", "github.com/coder/websocket=>bufio.Reader.Read", "github.com/coder/websocket=>bufio.Reader.Peek",
+	"github.com/coder/websocket=>bufio.Reader.Discard", "github.com/coder/websocket=>io.ReadFull",
+	"github.com/coder/websocket=>bufio.Writer.Flush", "github.com/coder/websocket=>bufio.Writer.Write", "github.com/coder/websocket=>bufio.Writer.WriteString", "github.com/coder/websocket=>bufio.Writer.WriteByte",
+}
 
 // Plain fields that are read and written across goroutines by design (DESIGN.md 2.2): a yield is
 // inserted before statements touching them so that a reordering shows up as a wrong value.
@@ -105,5 +111,21 @@ func init() {
 		World: "fed02", QuickRuns: 12000, ThorRuns: 600000, QuickSecs: 200, ThorSecs: 1800, Level: "exploration", MinNontriv: 50,
 		Rule:        "one case = twin execution of one generated (federation, operation): an uncorrupted run, then a run in which 1-3 positions of the subgraph answers are corrupted before delivery (null, missing key, wrong scalar kind, object for scalar, array for object, scalar for object, invalid enum value, unknown or missing __typename); oracle on the client bytes: one valid JSON document; data conforms to the client schema and contains exactly the selected response keys (own conformance walker); when the corruption did not change downstream requests: data is the uncorrupted data with subtrees nulled, every introduced null is explained by an error at or below it (or is a plain null in a nullable position), every error's nearest nullable ancestor (or one above) is null, and for null corruptions exactly the nearest one. Non-trivial = at least one corruption was applied. Distinct = distinct hash of the context-switch sequence.",
 		Assumptions: append([]string{"narrower than the property's 'forall plan trees': only trees the real planner emits for generated configurations, driven through the whole engine", "ID is planned as an opaque scalar (resolve.Scalar): any JSON value is accepted for it", "a merge conflict in the loader ('unable to merge results ... differing types') fails the request with a typed error before rendering; counted, not judged"}, fedAssume...), Components: fedComponents,
+	}
+
+	props["C18"] = &propCfg{
+		World: "ups", QuickRuns: 40000, ThorRuns: 2000000, QuickSecs: 200, ThorSecs: 1800, Level: "exploration", MinNontriv: 50,
+		Rule: "one case = one seeded simulated execution: 2-5 concurrent Subscribe calls over option tuples that differ in exactly one of endpoint / sub-protocol / header / init payload or in none, cancellations at any yield (also during dial, init and the subscribe write), unsubscribes, ping/ack/idle timeouts from the tape, against simulated upstream servers on the far end of net.Pipe (real coder/websocket on both ends) that emit per-id next/error/complete in tape order; faults: dial error, non-101, wrong sub-protocol, ack late/never/wrong, messages for unknown ids, server pings, unanswered pings, connection drop. Oracle: per-subscription delivery == what the upstream sent for its id, in order, at most one terminal, nothing after it; connections only shared between equal option keys; a never-cancelled subscriber on a fault-free connection gets everything and no error; Subscribe returns; Stats() reaches 0 and the upstream sees the sockets closed within the idle period. Non-trivial = a connection carried more than one subscription or several connections existed. Distinct = distinct hash of the context-switch sequence.",
+		Assumptions: []string{
+			"WebSocket transport only (both sub-protocols); the SSE transport is not exercised",
+			"github.com/coder/websocket runs as real code on both ends and is instrumented like the repository's packages (scratch copy of the module, see DESIGN.md 2.1); its compression is off (default)",
+			"baton scheduling serialises execution: pure data races on plain fields are invisible",
+		},
+		Components: map[string]string{
+			"subscriptionclient.Client, transport.WSTransport/wsConnection, protocol (graphql-transport-ws, graphql-ws)": "real code, AST-instrumented",
+			"github.com/coder/websocket (both ends), net.Pipe":                                                           "real library code, AST-instrumented scratch copy",
+			"UpgradeClient round tripper, upstream servers, subscriber handlers":                                         "stub (harness)",
+			"goroutine scheduler, clock (ack/ping/idle/write timeouts)":                                                  "simulated (baton scheduler + fake clock)",
+		},
 	}
 }
